@@ -25,7 +25,8 @@ OP  base: one block IF with `.eq.`.  Blocks:
       cross                                                    ubound_check (a complete UBOUND check in the same routine)
 UB  base: assumed-shape a(:, :) with one block IF per dimension (`ubound(a, d) < n` -> stop).  Blocks:
       forms get_ubound_checks / fix_subroutine recognise       reversed, combined_or, inline_form, upper, old_op_in_check,
-                                                               nested_in_if, duplicate_check, rank1_too
+                                                               nested_in_if, duplicate_check, rank1_too,
+                                                               two_arrays_one_if (one IF, dimension 1 of a and of d(:) against n / m)
       near misses                                              partial_other (second array, one dimension checked only),
                                                                size_check, lbound_extra, le_operator
       what removing the conditional removes                    else_branch, comment_in_check
@@ -368,13 +369,13 @@ DRIVER = '''program drv
   use wrap
   implicit none
   integer :: n, m, g, i, j, en
-  real, allocatable :: a(:, :), b(:), c(:, :)
+  real, allocatable :: a(:, :), b(:), c(:, :), d(:)
   real :: r
   do g = 1, 3
     n = 1 + g
     m = 5 - g
     en = n + %(extra)d
-    allocate(a(en, m), b(n), c(n, m))
+    allocate(a(en, m), b(n), c(n, m), d(m))
     do j = 1, m
       do i = 1, en
         a(i, j) = real(i) * 0.5 - real(j) * 0.25
@@ -384,14 +385,18 @@ DRIVER = '''program drv
       b(i) = real(i) - 2.0
     end do
     c = 0.5
+    do i = 1, m
+      d(i) = real(i) * 0.25 + 1.0
+    end do
     r = 0.125
-    call kern(n, m, a, b, c, r)
+    call kern(n, m, a, b, c, d, r)
     write(*, '(A,I0)') 'G', g
     write(*, '(A,30(1X,ES14.7))') 'A', a
     write(*, '(A,30(1X,ES14.7))') 'B', b
     write(*, '(A,30(1X,ES14.7))') 'C', c
+    write(*, '(A,30(1X,ES14.7))') 'D', d
     write(*, '(A,1X,ES14.7)') 'R', r
-    deallocate(a, b, c)
+    deallocate(a, b, c, d)
   end do
 end program drv
 '''
@@ -426,8 +431,9 @@ def op_program(sw):
     if 'member' in sw:
         body.append('call inner()')
         contains = ['contains', 'subroutine inner()', '  if (n .le. 7) r = r + 0.25', 'end subroutine inner']
-    head = ['subroutine kern(n, m, a, b, c, r)', '  implicit none', '  integer, intent(in) :: n, m', f'  {a_decl}',
-            '  real, intent(inout) :: b(n)', '  real, intent(inout) :: c(n, m)', '  real, intent(inout) :: r',
+    head = ['subroutine kern(n, m, a, b, c, d, r)', '  implicit none', '  integer, intent(in) :: n, m', f'  {a_decl}',
+            '  real, intent(inout) :: b(n)', '  real, intent(inout) :: c(n, m)', '  real, intent(inout) :: d(m)',
+            '  real, intent(inout) :: r',
             '  integer :: i, j', '  logical :: lg', '  character(len=16) :: s', "  s = 'abc'", '  lg = .false.', '  i = 1', '  j = 1']
     lines = head + [f'  {ln}' for ln in body] + contains + ['end subroutine kern']
     return lines, units
@@ -474,7 +480,14 @@ def ub_program(sw):
         decls = ['real, intent(inout) :: a(:, :), c(:, :)', b_decl]
     if 'dimension_attr' in sw:
         decls = ['real, dimension(:, :), intent(inout) :: a, c', b_decl]
+    d_decl = 'real, intent(inout) :: d(m)'
+    if 'two_arrays_one_if' in sw:
+        # one IF checks dimension 1 of two different dummies against different bounds
+        d_decl = 'real, intent(inout) :: d(:)'
+        checks = ['if (ubound(a, 1) < n .or. ubound(d, 1) < m) then #UB:a', '  stop 3 #UB:a', 'end if #UB:a'] + c2
+    decls.append(d_decl)
     work = ['do j = 1, m', '  do i = 1, n', '    a(i, j) = a(i, j) * 2.0 + c(i, j)', '  end do', 'end do',
+            'r = r + sum(d) + real(size(d))', 'd(1) = d(1) + 0.5',
             'do i = 1, n', '  b(i) = b(i) + a(i, 1)', 'end do', 'r = r + a(n, m) + a(1, m)']
     if 'ubound_used_elsewhere' in sw:
         work += ['do i = 1, ubound(a, 1)', '  r = r + a(i, 1) * 0.5', 'end do']
@@ -492,7 +505,7 @@ def ub_program(sw):
         contains = ['contains', 'subroutine inner(q)', '  real, intent(inout) :: q(:, :)', '  if (ubound(q, 1) < n) then #UB:q',
                     '    stop 9 #UB:q', '  end if #UB:q', '  if (ubound(q, 2) < m) stop 9 #UB:q', '  q(1, 1) = q(1, 1) + 1.0',
                     'end subroutine inner']
-    head = ['subroutine kern(n, m, a, b, c, r)', '  implicit none', '  integer, intent(in) :: n, m'] + [f'  {d}' for d in decls] + \
+    head = ['subroutine kern(n, m, a, b, c, d, r)', '  implicit none', '  integer, intent(in) :: n, m'] + [f'  {d}' for d in decls] + \
            ['  real, intent(inout) :: r', '  integer :: i, j']
     lines = head + [f'  {ln}' for ln in checks + work] + contains + ['end subroutine kern']
     return lines, []
@@ -504,9 +517,11 @@ FAMILIES = {
                         'rank1_too', 'partial_other', 'size_check', 'lbound_extra', 'le_operator', 'else_branch',
                         'comment_in_check', 'shared_decl', 'dimension_attr', 'ubound_used_elsewhere', 'whole_array_use',
                         'actual_larger', 'member', 'in_module', 'old_op_elsewhere', 'untouched_inline_if',
-                        'untouched_if_inline_comment']),
+                        'untouched_if_inline_comment', 'two_arrays_one_if']),
 }
-UB_EXCLUSIVE = [{'reversed', 'inline_form'}, {'reversed', 'size_check'}, {'reversed', 'else_branch'}, {'inline_form', 'size_check'},
+UB_EXCLUSIVE = [{'two_arrays_one_if', x} for x in ('combined_or', 'upper', 'old_op_in_check', 'le_operator', 'size_check',
+                                                       'comment_in_check', 'duplicate_check', 'lbound_extra', 'nested_in_if',
+                                                       'rank1_too', 'partial_other', 'shared_decl', 'dimension_attr')] + [{'reversed', 'inline_form'}, {'reversed', 'size_check'}, {'reversed', 'else_branch'}, {'inline_form', 'size_check'},
                 {'inline_form', 'else_branch'}, {'size_check', 'else_branch'}, {'upper', 'old_op_in_check'}, {'upper', 'le_operator'},
                 {'upper', 'size_check'}, {'upper', 'comment_in_check'}, {'old_op_in_check', 'le_operator'},
                 {'old_op_in_check', 'size_check'}, {'old_op_in_check', 'comment_in_check'}, {'le_operator', 'size_check'},
